@@ -27,7 +27,8 @@ notes = open(os.path.join(src, "notes.md")).read() if os.path.exists(os.path.joi
 conf = json.load(open(os.path.join(src, "confirm.json"))) if os.path.exists(os.path.join(src, "confirm.json")) else None
 files = [l[6:].strip() for l in open(os.path.join(src, "patch.diff")) if l.startswith("+++ b/")]
 reports = []
-for r in sorted(glob.glob(f"/tmp/mutw/replays/{pid}-*.json")):
+rep_dir = f"/tmp/seedrep/{batch}-{pid}" if os.path.isdir(f"/tmp/seedrep/{batch}-{pid}") else "/tmp/mutw/replays"
+for r in sorted(glob.glob(f"{rep_dir}/{pid}-*.json")):
     try:
         j = json.load(open(r))
         reports.append({"fingerprint": j.get("fingerprint"), "what": (j.get("what") or "")[:400], "witnesses": j.get("witnesses")})
